@@ -886,7 +886,11 @@ func ruleReadVerbatim(w *World, r *Run, rule string) {
 
 // C07.e ADAPTER
 func ruleAdapter(w *World, r *Run, rule string) {
-	name := "(" + pOmni + ".witnessAdapter).GetLatestCheckpoint"
+	name, un := adapterMethods(w)
+	if name == "" || un == "" {
+		r.Undecided(rule, pOmni+" | adapter between the witness and feeder.Witness", "", "no type of the package implements feeder.Witness")
+		return
+	}
 	sums, _, ok := exploreOpaque(w, r, rule, name, 4, 1, fnGetCheckpoint, fnUpdate)
 	if !ok {
 		return
@@ -923,7 +927,6 @@ func ruleAdapter(w *World, r *Run, rule string) {
 		r.Fail(rule, name+" | NotFound mapped", "", "no path maps NotFound to os.ErrNotExist: the feeder could never make its first submission")
 	}
 	// adapter Update passes through unchanged
-	un := "(" + pOmni + ".witnessAdapter).Update"
 	if sums, _, ok := exploreOpaque(w, r, rule, un, 4, 1, fnGetCheckpoint, fnUpdate); ok {
 		fn := w.fn(un)
 		for _, s := range sums {
@@ -1008,3 +1011,27 @@ func ruleNoInplace(w *World, r *Run, a *updAnalysis, rule string) {
 	}
 }
 
+
+
+// adapterMethods: the omniwitness package's implementation of feeder.Witness (GetLatestCheckpoint, Update), whatever the
+// adapter type is called and whether its methods have value or pointer receivers.
+func adapterMethods(w *World) (getLatest, update string) {
+	pick := func(meth string) string {
+		m := ifaceMethod(w, pFeeder, "Witness", meth)
+		if m == nil {
+			return ""
+		}
+		var names []string
+		for _, f := range w.implementations(m) {
+			if pkgPathOf(f) == pOmni && f.Synthetic == "" && w.isProd(f) {
+				names = append(names, funcName(f))
+			}
+		}
+		names = uniqStrings(names)
+		if len(names) != 1 {
+			return ""
+		}
+		return names[0]
+	}
+	return pick("GetLatestCheckpoint"), pick("Update")
+}
